@@ -168,6 +168,7 @@ def run_verus_unit(u, tier):
         res['canaries'].append({'name': c, 'failed_as_required': ok})
         if not ok and not r.undecided:
             res['undecided'] = res['undecided'] or ('canary %s did not fail: the harness is not observing the code' % c)
+    res['witnesses'] = u.get('witnesses', [])
     res['wall_s'] = time.time() - t0
     return res
 
